@@ -166,6 +166,19 @@ func enumerate(thorough bool) []pairSpec {
 		m = 3
 	}
 	full := gen(m)
+	if !thorough {
+		// quick tier: the length-3 suffixes in which ONE entry carries TWO
+		// annotations (revocation then a plain note, note then revocation,
+		// ...): whether an entry counts as revoked must not depend on which of
+		// its annotations is met first. Thorough has all suffixes of length 3.
+		for _, first := range []string{"rA", "rB", "pA"} {
+			for _, s1 := range []string{"+", "-"} {
+				for _, s2 := range []string{"+", "-"} {
+					full = append(full, []string{first, "a" + s1 + "0", "a" + s2 + "0"})
+				}
+			}
+		}
+	}
 	specs := []pairSpec{}
 	// reconcile: quick = local-only suffix <= 2 x remote-only suffix <= 1;
 	// thorough = (local <= 3 x remote <= 1) and (local <= 2 x remote <= 2)
@@ -233,7 +246,43 @@ func enumerate(thorough bool) []pairSpec {
 			addStates(l, r, false)
 		}
 	}
-	return specs
+	// Interleave the four families (reconcile, sync push, sync pull, sync with
+	// diverged logs) so that a run stopped by its time cap has covered all of
+	// them proportionally instead of only the first ones.
+	fam := func(sp pairSpec) int {
+		switch {
+		case sp.Op == "reconcile":
+			return 0
+		case len(sp.Remote) == 0:
+			return 1
+		case len(sp.Local) == 0:
+			return 2
+		}
+		return 3
+	}
+	groups := [4][]pairSpec{}
+	for _, sp := range specs {
+		groups[fam(sp)] = append(groups[fam(sp)], sp)
+	}
+	mixed := make([]pairSpec, 0, len(specs))
+	pos := [4]int{}
+	total := len(specs)
+	for k := 0; k < total; k++ {
+		// pick the family that is furthest behind its proportional share
+		best, bestLag := -1, -1.0
+		for g := range groups {
+			if pos[g] >= len(groups[g]) {
+				continue
+			}
+			lag := float64(k+1)*float64(len(groups[g]))/float64(total) - float64(pos[g])
+			if lag > bestLag {
+				best, bestLag = g, lag
+			}
+		}
+		mixed = append(mixed, groups[best][pos[best]])
+		pos[best]++
+	}
+	return mixed
 }
 
 // ---------------------------------------------------------------------------
@@ -1355,7 +1404,7 @@ func TestC15(t *testing.T) {
 		m = 3
 	}
 	col.Bound("max_suffix_len", m)
-	col.Rule("all pairs over the suffix alphabet {rA, rB (reference entry at a new commit), pA (propagation entry for refA), a+T / a-T (annotation skip true/false naming T = first shared entry | an earlier non-annotation entry of the same suffix | both)} on top of a shared 2-entry prefix. reconcile: quick = every local-only suffix of length <= 2 x every remote-only suffix of length <= 1; thorough = (local <= 3 x remote <= 1) and (local <= 2 x remote <= 2). sync push: every local-only suffix <= %d x overwriteLocalRefs. sync pull: every non-empty remote-only suffix <= %d x local state of the references it names (as recorded/behind, equal, ahead, diverged, absent; one reference varied at a time, in thorough all combinations for suffixes <= 2) x overwriteLocalRefs. sync with diverged logs: local-only {rA | rB | pA | a+S} x non-empty remote-only suffix <= %d x states x flag. Each pair is built on two real git repositories and one API call is executed; a class is (operation, local suffix shape, remote suffix shape, reference states, flag, outcome)", m, m, m-1)
+	col.Rule("all pairs over the suffix alphabet {rA, rB (reference entry at a new commit), pA (propagation entry for refA), a+T / a-T (annotation skip true/false naming T = first shared entry | an earlier non-annotation entry of the same suffix | both)} on top of a shared 2-entry prefix. reconcile: quick = every local-only suffix of length <= 2 (plus the twelve length-3 suffixes in which one entry carries two annotations) x every remote-only suffix of length <= 1; thorough = (local <= 3 x remote <= 1) and (local <= 2 x remote <= 2). sync push: every local-only suffix <= %d x overwriteLocalRefs. sync pull: every non-empty remote-only suffix <= %d x local state of the references it names (as recorded/behind, equal, ahead, diverged, absent; one reference varied at a time, in thorough all combinations for suffixes <= 2) x overwriteLocalRefs. sync with diverged logs: local-only {rA | rB | pA | a+S} x non-empty remote-only suffix <= %d x states x flag. Each pair is built on two real git repositories and one API call is executed; a class is (operation, local suffix shape, remote suffix shape, reference states, flag, outcome)", m, m, m-1)
 	col.Assume("policy-free repositories (Sync's propagation step finds no policy and records nothing); unsigned entries; local file transport between the clone and the bare remote")
 	col.Assume("branch references of each side are in the state its own log records unless a local reference state is enumerated explicitly")
 	col.Assume("certain conflict = both suffixes hold an unskipped reference or propagation entry for one reference; when the overlap involves only skipped entries both refusal (changing nothing) and a faithful replay are accepted")
